@@ -302,6 +302,11 @@ class Interp:
         if goal in st.pcset:
             return True
         extra = (T.mk_not(goal),)
+        # cheapest first: the linear facts of the path alone (no disjunctions, no rule hypotheses) - enough for most
+        # arithmetic side conditions, and immune to the case-split budget being eaten by unrelated hypotheses
+        lin = tuple(f for f in st.pc if f[0] == 'cmp')
+        if lin and len(lin) < len(st.pc) + (1 if self.hyps is not None else 0) and self.unsat(lin, extra):
+            return True
         if self.hyps is not None:
             extra = tuple(self.resolve_hyps(st, self.hyps(st, goal))) + extra
         # cone of influence first: only the constraints that share atoms (transitively) with the goal.  A proof from a
